@@ -683,6 +683,12 @@ def load_known(prop):
     return [k for k in data.get('known', []) if k.get('property') == prop]
 
 
+def _jd(o):
+    if isinstance(o, (set, frozenset)):
+        return sorted(o)
+    return str(o)
+
+
 class Run:
     """one run of a check: aggregates shards, decides the verdict, writes evidence"""
 
@@ -757,7 +763,7 @@ class Run:
         lines = []
         seen = set()
         for v in real:
-            h = hashlib.sha256(json.dumps(v['case'], sort_keys=True, ensure_ascii=True).encode()).hexdigest()[:12]
+            h = hashlib.sha256(json.dumps(v['case'], sort_keys=True, ensure_ascii=True, default=_jd).encode()).hexdigest()[:12]
             if h in seen:
                 continue
             seen.add(h)
@@ -765,7 +771,7 @@ class Run:
                 continue
             path = os.path.join(VERIF, 'replay', '%s-%s.json' % (prop, h))
             json.dump({'property': prop, 'tier': self.tier, 'seed': self.seed, 'case': v['case'],
-                       'message': v['message']}, open(path, 'w'), indent=1, ensure_ascii=True)
+                       'message': v['message']}, open(path, 'w'), indent=1, ensure_ascii=True, default=_jd)
             lines.append((path, v['message']))
         floors_failed = []
         floors = getattr(mod, 'FLOORS', {}).get(self.tier, {})
